@@ -41,8 +41,20 @@ def _mr(scheme, derived=False):
 DIMS = {}
 
 
-def _reg(name, schema, arr_axis, data):
-    DIMS[name] = dict(schema=schema, axis=arr_axis, data=data)
+def _reg(name, schema, arr_axis, data, post=None):
+    DIMS[name] = dict(schema=schema, axis=arr_axis, data=data, post=post)
+
+
+def _strip_aliases(resp):
+    """items WITHOUT an alias (fused-variable 'scorecard' payloads): the element id doubles as the alias"""
+    for dm in resp["result"]["dimensions"]:
+        for sr in dm.get("references", {}).get("subreferences", []) or []:
+            sr.pop("alias", None)
+        for el in dm.get("type", {}).get("elements", []) or []:
+            v = el.get("value")
+            if isinstance(v, dict):
+                v.get("references", {}).pop("alias", None)
+    return resp
 
 
 def _mr_data(n_items):
@@ -58,6 +70,12 @@ for _scheme in ("1..n", "0..n-1", "10s"):
          [((p, 1 + (i % 2)), 1, None) for i, p in enumerate(_mr_data(3))])
     _reg("mr_cols_%s" % _scheme, S.schema2("mr_cols_%s" % _scheme, B2, _M), 1,
          [((1 + (i % 2), p), 1, None) for i, p in enumerate(_mr_data(3))])
+for _scheme in ("0..n-1", "1..n"):
+    _M = _mr(_scheme)
+    _reg("mrnoalias_rows_%s" % _scheme, S.schema2("mrnoalias_rows_%s" % _scheme, _M, B2), 0,
+         [((p, 1 + (i % 2)), 1, None) for i, p in enumerate(_mr_data(3))], post=_strip_aliases)
+    _reg("mrnoalias_cols_%s" % _scheme, S.schema2("mrnoalias_cols_%s" % _scheme, B2, _M), 1,
+         [((1 + (i % 2), p), 1, None) for i, p in enumerate(_mr_data(3))], post=_strip_aliases)
 _Md = _mr("1..n", derived=True)
 _reg("mr_rows_derived", S.schema2("mr_rows_derived", _Md, B2), 0,
      [((p, 1 + (i % 2)), 1, None) for i, p in enumerate(_mr_data(3))])
@@ -105,6 +123,13 @@ def items_of(dname):
         return [{"canon": v, "spellings": [v, i, str(i)], "derived": False, "sid": None} for i, v in var.elements]
     eids = [it["eid"] for it in var.items]
     out = []
+    if dname.startswith("mrnoalias"):
+        for p, it in enumerate(var.items):
+            sp = [it["eid"], str(it["eid"]), it["sid"]]
+            if p not in eids:
+                sp += [p, str(p)]
+            out.append({"canon": it["eid"], "spellings": sp, "derived": False, "sid": it["sid"]})
+        return out
     for p, it in enumerate(var.items):
         sp = [it["alias"], it["sid"], it["eid"], str(it["eid"])]
         if p not in eids:
@@ -205,7 +230,10 @@ def detail(space, state):
 
 def _run(dname, t):
     d = DIMS[dname]
-    part = Cube(tabulate(d["schema"], d["data"]), transforms=copy.deepcopy(t), population=100).partitions[0]
+    resp = tabulate(d["schema"], d["data"])
+    if d.get("post"):
+        resp = d["post"](resp)
+    part = Cube(resp, transforms=copy.deepcopy(t), population=100).partitions[0]
     names = public_names(part)
     vals = read_all(part, names)
     ro = [int(i) for i in part.row_order()]
